@@ -17,11 +17,13 @@ NEEDS_HOOKS = False
 KNOWN_SHIFT = 'C10-ppif-int-result-shift'
 TRUSTED_BASE = [
     'Lean 4.33.0 kernel; axioms admitted: propext, Classical.choice, Quot.sound (audited per theorem on every run)',
-    'hand-written models lean/ChibiVerif/Model/{CondIncl,IncludeSearch,PPExpr}.lean of preprocess.c / main.c; tied (a) by the translator '
+    'hand-written models lean/ChibiVerif/Model/{CondIncl,IncludeSearch,IncludeDepth,IncludeOperand,PPExpr}.lean of preprocess.c / main.c; tied (a) by the translator '
     'tools/extract/c10incl.py, which compares the text of every transcribed arm (the six conditional arms of preprocess2, push_cond_incl, '
-    'both skip loops, skip_line, is_hash, is_null_directive, detect_include_guard, include_file, search_include_paths, search_include_next, '
-    'the #include/#include_next/#pragma once arms, parse_args\' -I/-D/-U/-include/-idirafter arms, the cc1 branch of main, the head of cc1) '
-    'with the shape the model was written from and regenerates the include-path order, default directories and directive-name sets, and '
+    'both skip loops, skip_line, is_hash, is_null_directive, detect_include_guard, include_file (incl. the position of its nesting test and the '
+    'incl_depth bookkeeping), search_include_paths, search_include_next, read_include_filename, join_tokens, copy_line, file_macro, the object-like '
+    'arm of expand_macro, the #include/#include_next/#pragma once arms, parse_args\' -I/-D/-U/-include/-idirafter arms, the cc1 branch of main, '
+    'the head of cc1) with the shape the model was written from and regenerates the include-path order, default directories, directive-name sets '
+    'and the nesting limit, and '
     '(b) by running chibicc -E on generated inputs against the model (marker streams and diagnostic classes)',
     'the abstraction of a source file to lines (checklib/C10.py renders each generated line both as C text and as a model line); '
     'macro bodies in #if are restricted to parenthesised expressions / literals so that token-level and tree-level substitution agree',
@@ -38,6 +40,16 @@ ASSUMPTIONS = [
     'above INTMAX_MAX without u suffix are not generated (counted as skipped_ub)',
     '#pragma once identifies files by path spelling in chibicc and by file identity in gcc: inputs that reach a #pragma once file '
     'through two spellings are compared with the model only',
+    'the file system of the model is a function path -> content; the driver instantiates it with the generated tree, paths normalised the way '
+    'the kernel resolves ./.. and empty components, and open/stat failing for paths of PATH_MAX = 4096 bytes or more (reached by #include __FILE__, '
+    'whose spelling roughly doubles per level)',
+    'the macro expander applied to #include operands is a parameter of the model (every theorem is for all expanders); the driver instantiates it '
+    'with object-like expansion + __FILE__ (IncludeOperand.expandObj); function-like macros, # and ## in #include operands are not generated',
+    'gcc counts the main file as nesting depth 1 and tests the depth before its multiple-include optimisation: the comparison at the nesting limit '
+    'runs gcc with -fmax-include-depth=201; a guarded or #pragma-once header named again at depth 200 (chibicc: shortcut first, accepted; gcc: '
+    'refused) is counted, not reported; 200 >= the 15 levels of C11 5.2.4.1',
+    'a header that holds #include_next is reached through the search path only (what "the directory where the current file was found" means for '
+    'a file found beside its includer differs between implementations)',
 ]
 
 MARK = re.compile(r'\bmk_[A-Za-z0-9_]+\b')
@@ -65,8 +77,47 @@ def lit(value, text, uns):
     return ('n', value & M64, text, uns)
 
 
+SIMPLE_ESC = {'n': 10, 't': 9, '0': 0, '\\': 92, "'": 39, '"': 34, 'a': 7, 'b': 8, 'f': 12, 'r': 13, 'v': 11, '?': 63}
+CHAR_PLAIN = [c for c in map(chr, range(32, 127)) if c not in "'\\"]
+
+
+def mk_char_lit(rng, prefix=None, code=None):
+    """a character constant (6.4.4.4) with prefix none / L / u / U and a random spelling of its one character (the letter itself,
+    a simple, octal or hexadecimal escape).  In #if it has the value and the signedness of its type (6.10.1p4): plain = char
+    (signed here), L = wchar_t (int), u = char16_t, U = char32_t (both unsigned) -- whatever letters the spelling contains."""
+    if prefix is None:
+        prefix = rng.choice(['', '', '', 'L', 'u', 'U'])
+    bits = {'': 8, 'L': 32, 'u': 16, 'U': 32}[prefix]
+    signed = prefix in ('', 'L')
+    if code is None:
+        r = rng.random()
+        if r < 0.45:
+            code = ord(rng.choice(['u', 'U', 'l', 'L', 'a', 'z', 'A', '0', '9', ' ', '~', '!', 'x']))
+        elif r < 0.6:
+            code = rng.choice(list(SIMPLE_ESC.values()))
+        elif r < 0.8:
+            code = rng.choice([0, 1, 0x7f, 0x80, 0xff, (1 << (bits - 1)) - 1, 1 << (bits - 1), (1 << bits) - 1, rng.randrange(0, 1 << bits)])
+        else:
+            code = rng.randrange(0, 256)
+    code &= (1 << bits) - 1
+    forms = []
+    if 32 <= code < 127 and chr(code) in CHAR_PLAIN:
+        forms += [chr(code)] * 3
+    forms += ['\\' + k for k, v in SIMPLE_ESC.items() if v == code]
+    if code < 0o1000 and code < (1 << bits):
+        forms.append('\\%o' % code)
+        if code < 8:
+            forms.append('\\%03o' % code)
+    forms.append(rng.choice(['\\x%x', '\\x%X', '\\x0%x']) % code)
+    text = prefix + "'" + rng.choice(forms) + "'"
+    value = code - (1 << bits) if signed and code >= (1 << (bits - 1)) else code
+    return lit(value, text, not signed)
+
+
 def mk_lit(rng, value=None):
     """an integer constant with a random spelling; returns a node whose type follows 6.4.4.1 at intmax_t/uintmax_t rank"""
+    if value is None and rng.random() < 0.18:
+        return mk_char_lit(rng)
     if value is None:
         value = rng.choice([0, 1, 2, 3, 5, 7, 31, 32, 63, 64, 100, 255, 0x7fffffff, 0x80000000, 0xffffffff, 0x100000000,
                             0x7fffffffffffffff, 0x8000000000000000, 0xffffffffffffffff, rng.randrange(0, 1 << 16),
@@ -509,9 +560,14 @@ def classify_err(stderr):
     """class of the diagnostic chibicc died with = its last message (warnings such as skip_line's `extra token` come before)"""
     msgs = [l.split('^', 1)[1].strip() for l in stderr.splitlines() if re.match(r'\s*\^ ', l)]
     last = msgs[-1] if msgs else stderr.strip()
+    if '#include nested too deeply' in last:
+        # located diagnostic: "<file>:<line>: <source line>" stands two lines above the message
+        locs = re.findall(r'^(\S+?):(\d+): ', stderr, re.M)
+        return 'nested-too-deeply@' + (os.path.normpath(locs[-1][0]) + ':' + locs[-1][1] if locs else '?')
     for pat, cls in (('stray #elif', 'stray-elif'), ('stray #else', 'stray-else'), ('stray #endif', 'stray-endif'),
                      ('unterminated conditional directive', 'unterminated'), ('cannot open file', 'cannot-open'),
                      ('-include:', 'cannot-open'),
+                     ('expected a filename', 'bad-directive'), ("expected '>'", 'bad-directive'),
                      ('division by zero', 'bad-expr'), ('no expression', 'bad-expr'), ('extra token', 'bad-expr'),
                      ('expected', 'bad-expr'), ('invalid preprocessor directive', 'bad-directive'),
                      ('macro name must be an identifier', 'bad-directive')):
@@ -566,8 +622,12 @@ def setup_bin(ctx, d):
     os.symlink(ctx.cc, os.path.join(d, 'bin', 'chibicc'))
 
 
+I_SEPARATE = [False]
+
+
 def read_gen(ctx):
     txt = open(os.path.join(ctx.lean_dir, 'ChibiVerif/Gen/C10InclGen.lean')).read()
+    I_SEPARATE[0] = bool(re.search(r'def iSeparateArm : Bool := true', txt))
     dd = re.search(r'def defaultDirs : List String := \[(.*?)\]', txt).group(1)
     return [x.replace('$ARGV0DIR', 'bin') for x in re.findall(r'"([^"]*)"', dd)]
 
@@ -743,6 +803,11 @@ def B(op, a, b):
     return ('b', op, a, b)
 
 
+def C(text, value, uns=False):
+    """a character constant: spelling, value of its type, unsigned?"""
+    return lit(value, text, uns)
+
+
 def U(op, a):
     return ('u', op, a)
 
@@ -789,6 +854,18 @@ def arith_battery():
         B('lt', ('c', zero, N(0x80000000, '0x80000000', False), U('neg', one)), zero),
         B('eq', B('mod', U('bnot', zero), N(0xffffffff, '037777777777', False)), U('neg', one)),
         B('lt', U('neg', one), N(0xffffffff, '0xffffffffu', True)), B('lt', U('neg', one), N(0xffffffff, '0xffffffffL', False)),
+        # character constants: value and signedness of their type, whatever letters the spelling contains (6.10.1p4, 6.4.4.4)
+        B('lt', B('sub', C("'u'", 117), N(200)), zero), B('lt', B('sub', C("'U'", 85), N(200)), zero), B('lt', B('sub', C("L'u'", 117), N(200)), zero),
+        B('lt', B('sub', C("L'U'", 85), N(200)), zero), B('lt', B('sub', C("'l'", 108), N(200)), zero),
+        B('lt', B('sub', C("u'a'", 97, True), N(200)), zero), B('lt', B('sub', C("U'a'", 97, True), N(200)), zero),
+        B('eq', B('div', U('neg', one), C("'U'", 85)), zero), B('lt', ('c', one, U('neg', one), C("'u'", 117)), zero),
+        B('eq', B('shr', B('sub', C("'u'", 117), C("'z'", 122)), N(62)), U('neg', one)), B('lt', B('mod', U('neg', N(7)), C("'u'", 117)), zero),
+        B('lt', C("'\\377'", -1), zero), B('lt', C("'\\xff'", -1), zero), B('lt', C("'\\x80'", -128), zero), B('gt', C("L'\\xff'", 255), zero),
+        B('lt', C("L'\\xffffffff'", -1), zero), B('gt', C("U'\\xffffffff'", 0xffffffff, True), zero), B('eq', C("u'\\xffff'", 0xffff, True), N(65535)),
+        B('lt', U('neg', one), C("u'a'", 97, True)), B('lt', U('neg', one), C("U'u'", 117, True)), B('lt', U('neg', one), C("L'U'", 85)),
+        B('lt', U('bnot', C("'u'", 117)), zero), B('lt', U('bnot', C("u'u'", 117, True)), zero), B('lt', U('neg', C("U'U'", 85, True)), zero),
+        B('eq', C("'\\n'", 10), N(10)), B('eq', C("'\\''", 39), N(39)), B('eq', C("'\"'", 34), N(34)), B('eq', C("'\\\\'", 92), N(92)),
+        B('eq', C("'\\0'", 0), zero), B('eq', C("'\\101'", 65), C("'A'", 65)), B('eq', C("u'\\x41'", 65, True), C("U'A'", 65, True)),
         # the region of the known finding: an int-typed intermediate result wider than 32 bits
         B('shl', B('lt', one, N(2)), N(40)), B('shl', U('lnot', zero), N(40)),
         B('eq', B('shl', B('gt', N(2), one), N(32)), N(4294967296)),
@@ -911,12 +988,23 @@ class Graph:
         self.feat = set()
         self.gcc_ok = True     # False: implementation-defined difference expected (pragma once + two spellings)
         self.idx = idx
+        self.macro_defs = []   # #define lines for macro-named #include operands (put at the top of m.c)
 
     def marker(self, tag=''):
         self.k += 1
         return f'mk_{tag}{self.k}'
 
-    def inc_line(self, form, name, ex=''):
+    def inc_line(self, form, name, ex='', macro_ok=True):
+        if macro_ok and self.rng.random() < 0.15:
+            # the operand is produced by macro expansion (read_include_filename, pattern 3); the macros are defined at the top of m.c
+            mac = f'INC_{len(self.macro_defs)}'
+            self.macro_defs.append(mac_define(mac, form, name))
+            if self.rng.random() < 0.25:
+                alias = f'INC_{len(self.macro_defs)}'
+                self.macro_defs.append(mac_alias(alias, mac))
+                mac = alias
+            self.feat.add('include-macro-operand:' + form)
+            return mac_include(mac, ex=ex)
         if form == 'q':
             return Ln(f'#include "{name}"{ex}', f'include q {name}')
         return Ln(f'#include <{name}>{ex}', f'include a {name}')
@@ -1088,16 +1176,16 @@ class Graph:
         for n in ['P', 'Q']:
             m = f'mk_def_{n}'
             main += [Ln(f'#if defined({n}) && {n} + 1 > 1', f'if b land d {n} b gt b add i {n} n 1 s n 1 s'), Ln(m, f't {m}'), Ln('#endif', 'endif 0')]
-        self.files['m.c'] = main
+        self.files['m.c'] = self.macro_defs + main       # (macro_defs is filled while the headers and main are generated)
         # -include
         self.cmd_includes = []
         if rng.random() < 0.35:
             pre = [Ln('#define Q 2', 'define Q n 2 s') if rng.random() < 0.5 else Ln('#undef P', 'undef P 0'), tmk()]
             if rng.random() < 0.5:
                 hn = rng.choice(names)
-                pre.append(self.inc_line('a' if hn in self.next_names else rng.choice(['q', 'a']), hn))
+                pre.append(self.inc_line('a' if hn in self.next_names else rng.choice(['q', 'a']), hn, macro_ok=False))
             where = rng.choice(['pre.h', dirs[0] + '/pre_d.h'])
-            self.files[where] = pre
+            self.files[where] = list(self.macro_defs) + pre     # the headers it reaches may use the INC_k macros (identical redefinition in m.c)
             spelled = where if where == 'pre.h' or rng.random() < 0.5 or dirs[0] not in idirs + after else 'pre_d.h'
             self.opts.insert(rng.randrange(0, len(self.opts) + 1), ('include', spelled))
             self.feat.add('cmdline-include')
@@ -1105,9 +1193,13 @@ class Graph:
 
     def argv(self, gcc=False):
         a = []
-        for o in self.opts:
+        for k, o in enumerate(self.opts):
             if o[0] == 'I':
-                a.append('-I' + o[1])
+                # `-I dir` as two arguments where main.c has that arm (decided per option from the graph's own numbers: stable across calls)
+                if I_SEPARATE[0] and (self.idx + k) % 3 == 0:
+                    a += ['-I', o[1]]
+                else:
+                    a.append('-I' + o[1])
             elif o[0] == 'after':
                 a += ['-idirafter', o[1]]
             elif o[0] == 'D':
@@ -1249,6 +1341,20 @@ def fixed_include_cases(ctx, corr):
       [('after', 'd1'), ('after', 'd2')])
     G({'m.c': [('#include "s/a.h"', 'include q s/a.h')], 's/a.h': [('#include "b.h"', 'include q b.h')], 's/b.h': [t('mk_sb')], 'b.h': [t('mk_b')],
        'd0/b.h': [t('mk_d0b')]}, [('I', 'd0')])
+    # operands produced by macro expansion keep their form: "..." looks beside the includer first, <...> does not
+    md = lambda mac, form, name: (lambda l: (l.c, l.p))(mac_define(mac, form, name))
+    mi = lambda mac, ex='': (lambda l: (l.c, l.p))(mac_include(mac, ex=ex))
+    G({'m.c': [md('HQ', 'q', 'b.h'), md('HA', 'a', 'b.h'), ('#define HQ2 HQ', 'definet HQ2 I1HQ'), ('#include <a.h>', 'include a a.h')],
+       'd1/a.h': [mi('HQ'), mi('HA'), mi('HQ2', ' junk'), ('#include HA junk', 'includem I1HA I1junk')], 'd1/b.h': [t('mk_d1')], 'd0/b.h': [t('mk_d0')]},
+      [('I', 'd0'), ('I', 'd1')])
+    G({'m.c': [md('HN', 'a', 'x.h'), ('#include <x.h>', 'include a x.h')], 'A/x.h': [t('mk_A'), ('#include_next HN', 'include_nextm I1HN')],
+       'B/x.h': [t('mk_B')], 'x.h': [t('mk_cwd')]}, [('I', 'A'), ('I', 'B')])
+    G({'m.c': [('#define A A B', 'definet A I1A I1B'), ('#define B A', 'definet B I1A'), ('#include A', 'includem I1A'), t('mk_after')]}, [])
+    G({'m.c': [('#define h h', 'definet h I1h'), ('#define d0 d0', 'definet d0 I1d0'), md('HH', 'a', 'h.h'), md('HD', 'a', 'd0/h.h'), mi('HH'), mi('HD')],
+       'h.h': [t('mk_h')], 'd0/h.h': [t('mk_d0h')]}, [('I', '.')])
+    G({'m.c': [('#include UNDEFINED_MACRO', 'includem I1UNDEFINED_MACRO'), t('mk_after')]}, [])
+    G({'m.c': [('#define E', 'definet E'), ('#include E', 'includem I1E'), t('mk_after')]}, [])
+    G({'m.c': [('#define LT <h.h', 'definet LT O1< I0h O0. I0h'), ('#include LT', 'includem I1LT'), t('mk_after')], 'h.h': [t('mk_h')]}, [('I', '.')])
     # #include_next chains
     G({'m.c': [('#include <x.h>', 'include a x.h')],
        'A/x.h': [t('mk_A1'), ('#include_next <x.h>', 'include_next x.h'), t('mk_A2')],
@@ -1302,6 +1408,287 @@ def fixed_include_cases(ctx, corr):
             corr.violations.append({'what': 'chibicc -E includes different text than gcc -E -P with the same options', 'input': g.dump(),
                                     'args': args, 'expected': gcc, 'got': impl, 'stderr': ierr[-300:]})
 
+
+
+# ============================================================================ include cycles, nesting limit, macro operands
+
+GCC_DEPTH = '-fmax-include-depth=201'      # gcc counts the main file as depth 1 and refuses at depth >= max (default 200): with 201 it
+                                           # refuses exactly the #include chibicc refuses (a directive standing in a file of depth 200)
+
+
+def lex_name(name):
+    """lexemes of a header name as the tokenizer sees them between < and >"""
+    return re.findall(r'[A-Za-z_][A-Za-z_0-9]*|[0-9][A-Za-z_0-9.]*|.', name)
+
+
+def otoks(form, name, first_space=True):
+    """protocol tokens (T = <S|I|O><0|1><text>) of the operand "name" (form q) / <name> (form a)"""
+    sp = '1' if first_space else '0'
+    if form == 'q':
+        return [f'S{sp}{name}']
+    out = [f'O{sp}<']
+    for lx in lex_name(name):
+        out.append(('I0' if re.match(r'[A-Za-z_]', lx) else 'O0') + lx)
+    return out + ['O0>']
+
+
+def mac_define(mac, form, name):
+    """`#define mac "name"` / `#define mac <name>` as an Ln"""
+    return Ln(f'#define {mac} ' + (f'"{name}"' if form == 'q' else f'<{name}>'), f'definet {mac} ' + ' '.join(otoks(form, name)))
+
+
+def mac_alias(mac, other):
+    return Ln(f'#define {mac} {other}', f'definet {mac} I1{other}')
+
+
+def mac_include(mac, nxt=False, ex=''):
+    d = 'include_next' if nxt else 'include'
+    return Ln(f'#{d} {mac}{ex}', f'{d}m I1{mac}' + (' I1junk' if ex else ''))
+
+
+def norm_res(r):
+    """normalise the file name inside err:nested-too-deeply@<file>:<line>"""
+    m = re.match(r'err:nested-too-deeply@(.*):(\d+)$', r)
+    return f'err:nested-too-deeply@{os.path.normpath(m.group(1))}:{m.group(2)}' if m else r
+
+
+def gcc_outcome(cmd, d):
+    rc, o, e = sh(cmd, cwd=d, timeout=60)
+    if rc == 0:
+        return 'ok:' + ','.join(MARK.findall(o)), e
+    m = re.search(r'^(\S+?):(\d+):\d+: error: #include nested depth', e, re.M)
+    if m:
+        return f'err:nested-too-deeply@{os.path.normpath(m.group(1))}:{m.group(2)}', e
+    return 'err', e
+
+
+def chain_graph(ctx, n, form='q', tail=None):
+    """m.c -> f1.h -> ... -> fn.h (n nested files), markers before and after every #include"""
+    g = Graph(ctx, 0)
+    g.opts = [('I', '.')] if form == 'a' else []
+    def inc(name):
+        return Ln(f'#include "{name}"', f'include q {name}') if form == 'q' else Ln(f'#include <{name}>', f'include a {name}')
+    g.files = {'m.c': [Ln('mk_m0', 't mk_m0'), inc('f1.h'), Ln('mk_m1', 't mk_m1')]}
+    for i in range(1, n + 1):
+        ls = [Ln(f'mk_a{i}', f't mk_a{i}')]
+        if i < n:
+            ls.append(inc(f'f{i + 1}.h'))
+        elif tail:
+            ls += tail
+        ls.append(Ln(f'mk_b{i}', f't mk_b{i}'))
+        g.files[f'f{i}.h'] = ls
+    g.feat.add(f'chain-{n}')
+    return g
+
+
+def fixed_cycle_graphs(ctx):
+    cases = []
+    def G(files, opts=(), gcc_ok=True, feat=''):
+        g = Graph(ctx, 0)
+        g.files = {p: [x if isinstance(x, Ln) else Ln(*x) for x in ls] for p, ls in files.items()}
+        g.opts = list(opts)
+        g.gcc_ok = gcc_ok
+        g.feat.add('cycle:' + feat)
+        cases.append(g)
+    t = lambda m: Ln(m, f't {m}')
+    q = lambda n, ex='': Ln(f'#include "{n}"{ex}', f'include q {n}')
+    a = lambda n: Ln(f'#include <{n}>', f'include a {n}')
+    nx = lambda n: Ln(f'#include_next <{n}>', f'include_next {n}')
+    ifn = lambda gname: Ln(f'#ifndef {gname}', f'ifndef {gname} 0')
+    dfn = lambda gname: Ln(f'#define {gname}', f'define {gname} -')
+    end = Ln('#endif', 'endif 0')
+    # --- self-include
+    G({'m.c': [t('mk_1'), q('m.c'), t('mk_2')]}, feat='self')
+    G({'m.c': [t('mk_1'), mac_include('__FILE__'), t('mk_2')]}, feat='self-__FILE__')
+    G({'m.c': [q('s.h')], 's.h': [t('mk_s'), mac_include('__FILE__', ex=' junk')]}, feat='self-__FILE__-header')
+    G({'m.c': [a('s.h')], 'd0/s.h': [t('mk_s'), a('s.h')]}, [('I', 'd0')], feat='self-angle')
+    G({'m.c': [t('mk_m')], 'pre.h': [t('mk_p'), q('pre.h')]}, [('include', 'pre.h')], feat='self-from-cmdline-include')
+    # --- 2- and 3-cycles
+    G({'m.c': [q('a.h'), t('mk_m')], 'a.h': [t('mk_a'), q('b.h'), t('mk_a2')], 'b.h': [t('mk_b'), q('a.h'), t('mk_b2')]}, feat='2-cycle')
+    G({'m.c': [a('a.h')], 'd0/a.h': [t('mk_a'), a('b.h')], 'd1/b.h': [t('mk_b'), q('c.h')], 'd1/c.h': [t('mk_c'), a('a.h')]},
+      [('I', 'd0'), ('after', 'd1')], feat='3-cycle-mixed-forms')
+    # --- through #include_next
+    G({'m.c': [a('x.h')], 'A/x.h': [t('mk_A'), nx('x.h')], 'B/x.h': [t('mk_B'), a('x.h')]}, [('I', 'A'), ('I', 'B')], feat='next-cycle')
+    G({'m.c': [a('x.h')], 'A/x.h': [t('mk_A'), nx('x.h')], 'B/x.h': [t('mk_B'), nx('x.h')], 'C/x.h': [t('mk_C'), a('x.h')]},
+      [('I', 'A'), ('I', 'B'), ('after', 'C')], feat='next-cycle-3')
+    # --- through macro-named operands
+    G({'m.c': [mac_define('HA', 'q', 'a.h'), mac_define('HB', 'a', 'b.h'), mac_include('HA')],
+       'a.h': [t('mk_a'), mac_include('HB')], 'd0/b.h': [t('mk_b'), mac_alias('HC', 'HA'), mac_include('HC', ex=' junk')]},
+      [('I', 'd0'), ('I', '.')], feat='macro-cycle')
+    G({'m.c': [mac_define('NX', 'a', 'x.h'), a('x.h')], 'A/x.h': [t('mk_A'), mac_include('NX', nxt=True)], 'B/x.h': [t('mk_B'), mac_include('NX')]},
+      [('I', 'A'), ('I', 'B')], feat='macro-next-cycle')
+    # --- guarded cycles: terminate before the limit
+    G({'m.c': [q('a.h'), t('mk_m'), q('a.h')], 'a.h': [ifn('GA'), dfn('GA'), t('mk_a'), q('b.h'), t('mk_a2'), end],
+       'b.h': [ifn('GB'), dfn('GB'), t('mk_b'), q('a.h'), t('mk_b2'), end]}, feat='guarded-2-cycle')
+    G({'m.c': [q('a.h'), t('mk_m')], 'a.h': [ifn('GA'), dfn('GA'), t('mk_a'), q('a.h'), end, t('mk_after_guard')]}, feat='almost-guarded-self')
+    G({'m.c': [q('a.h'), t('mk_m'), q('a.h')], 'a.h': [Ln('#pragma once', 'once'), t('mk_a'), q('b.h')], 'b.h': [t('mk_b'), q('a.h')]}, feat='once-2-cycle')
+    G({'m.c': [q('a.h'), t('mk_m')],
+       'a.h': [ifn('N1'), dfn('N1'), t('mk_1'), q('a.h'), Ln('#elif !defined N2', 'elif u lnot d N2'), dfn('N2'), t('mk_2'), q('a.h'),
+               Ln('#elif !defined(N3)', 'elif u lnot d N3'), dfn('N3'), t('mk_3'), mac_include('__FILE__'), Ln('#else', 'else 0'), t('mk_bottom'), end,
+               t('mk_tail')]}, feat='counter-cycle')
+    G({'m.c': [a('x.h'), t('mk_m')], 'A/x.h': [ifn('GX'), dfn('GX'), t('mk_A'), nx('x.h'), end], 'B/x.h': [t('mk_B'), a('x.h')]},
+      [('I', 'A'), ('I', 'B')], feat='guarded-next-cycle')
+    # --- the cycle is entered only in a skipped group / after the conditional stack of the includer
+    G({'m.c': [Ln('#if 0', 'if n 0 s'), q('m.c'), end, t('mk_m')]}, feat='skipped-self')
+    G({'m.c': [q('a.h'), t('mk_m'), end], 'a.h': [Ln('#ifndef STOP', 'ifndef STOP 0'), dfn('STOP'), t('mk_a'), q('a.h')]}, feat='unbalanced-cycle')
+    return cases
+
+
+def gen_cycle_graph(ctx, idx):
+    """a random cycle of 1..3 headers reached from m.c: random directive forms per edge, random way of (not) terminating"""
+    rng = ctx.rng
+    g = Graph(ctx, idx)
+    k = rng.choice([1, 2, 2, 3])
+    use_next = k >= 2 and rng.random() < 0.25
+    names = [f'c{i}.h' for i in range(k)]
+    stop = rng.choice(['none', 'none', 'guard', 'guard-one', 'once', 'counter', 'cond-false'])
+    t = lambda m: Ln(m, f't {m}')
+    g.opts = []
+    files = {}
+    macros = []           # Ln of #define lines for macro operands (put into m.c, in front)
+    mk = [0]
+    def marker():
+        mk[0] += 1
+        return t(f'mk_{mk[0]}')
+    def edge(target, here_dir):
+        """an #include of `target` (a name in d0) from a file in d0.  A header that holds #include_next is only reached through
+        the search path (angle form): what "the directory in which the current file was found" means for a file found beside
+        its includer is left to the implementation (gcc: not found through the chain, chibicc: path prefix)"""
+        angle_only = use_next and target == names[0]
+        r = rng.random()
+        if r < 0.3 and not angle_only:
+            return Ln(f'#include "{target}"', f'include q {target}')
+        if r < 0.55:
+            return Ln(f'#include <{target}>', f'include a {target}')
+        mac = f'INC_{len(macros)}'
+        form = 'a' if angle_only else rng.choice(['q', 'a'])
+        macros.append(mac_define(mac, form, target))
+        if rng.random() < 0.3:
+            alias = f'INC_{len(macros)}'
+            macros.append(mac_alias(alias, mac))
+            mac = alias
+        ex = ' junk' if rng.random() < 0.2 else ''
+        return mac_include(mac, ex=ex)
+    g.opts.append(('I', 'd0'))
+    if use_next:
+        # c0.h exists in d0 and d1: d0/c0.h continues with #include_next, d1/c0.h goes on round the cycle
+        g.opts.append(rng.choice([('I', 'd1'), ('after', 'd1')]))
+    for i, n in enumerate(names):
+        nxt = names[(i + 1) % k]
+        body = [marker()]
+        if use_next and i == 0:
+            files['d1/' + n] = [marker(), edge(nxt, 'd1'), marker()]
+            body.append(Ln(f'#include_next <{n}>', f'include_next {n}'))
+        elif k == 1 and rng.random() < 0.3:
+            body.append(mac_include('__FILE__'))
+            g.feat.add('cycle-__FILE__')
+            if stop == 'once':
+                g.gcc_ok = False          # spelling grows with every level: #pragma once by spelling (chibicc) vs identity (gcc)
+        else:
+            body.append(edge(nxt, 'd0'))
+        body.append(marker())
+        gname = f'G{i}'
+        if stop == 'guard' or (stop == 'guard-one' and i == 0):
+            body = [Ln(f'#ifndef {gname}', f'ifndef {gname} 0'), Ln(f'#define {gname}', f'define {gname} -')] + body + [Ln('#endif', 'endif 0')]
+            if rng.random() < 0.3:
+                body.append(marker())     # text after the guard's #endif: not a guarded file for detect_include_guard, still terminates
+        elif stop == 'once' and i == 0:
+            body.insert(rng.choice([0, 1]), Ln('#pragma once', 'once'))
+        elif stop == 'counter' and i == 0:
+            lim = rng.choice([1, 2, 4])
+            hd = []
+            for j in range(lim):
+                hd += [Ln(f'#{"if" if j == 0 else "elif"} !defined(N{j})', f'{"if" if j == 0 else "elif"} u lnot d N{j}'),
+                       Ln(f'#define N{j}', f'define N{j} -')] + body
+            body = hd + [Ln('#else', 'else 0'), marker(), Ln('#endif', 'endif 0')]
+        elif stop == 'cond-false' and i == 0:
+            body = [Ln('#ifdef NEVER', 'ifdef NEVER 0')] + body + [Ln('#else', 'else 0'), marker(), Ln('#endif', 'endif 0')]
+        files['d0/' + n] = body
+    main = macros + [marker(), Ln(f'#include <{names[0]}>', f'include a {names[0]}'), marker()]
+    if rng.random() < 0.4:
+        main += [Ln(f'#include <{names[-1]}>', f'include a {names[-1]}'), marker()]
+    files['m.c'] = main
+    g.files = files
+    g.feat.add(f'cycle-gen:{k}:{stop}' + (':next' if use_next else ''))
+    return g
+
+
+def check_graphs_with_limit(ctx, corr, graphs, tag):
+    """model (with and without the guard shortcut) vs chibicc -E vs gcc -E -P -fmax-include-depth=201: outcome and, for the
+    nesting diagnostic, file:line"""
+    sysdirs = read_gen(ctx)
+    proto = ''.join(graph_proto(g, sysdirs) for g in graphs)
+    out = ctx.driver('incl', proto).splitlines()
+    if len(out) != len(graphs):
+        corr.disagreements.append({'kind': f'driver protocol ({tag})', 'note': f'{len(out)} answers for {len(graphs)}', 'tail': out[-2:]})
+        return
+    for i, (g, ans) in enumerate(zip(graphs, out)):
+        r = parse_drv(ans)
+        corr.evaluations += 1
+        corr.count(tag)
+        for f in g.feat:
+            corr.count('feature:' + f)
+        if r is None:
+            corr.disagreements.append({'kind': f'driver protocol ({tag})', 'model': ans, 'input': g.dump()})
+            return
+        d = case_dir(ctx, f'{tag}{i}')
+        setup_bin(ctx, d)
+        g.write(d)
+        args = g.argv()
+        impl, ierr = run_pp(['bin/chibicc', '-E'] + args + ['m.c'], d, timeout=60)
+        impl = norm_res(impl)
+        gcc, gerr = gcc_outcome(['gcc', '-E', '-P', GCC_DEPTH, '-nostdinc', '-isystem', 'bin/include'] + args + ['m.c'], d)
+        model, plain = norm_res(model_markers(r['model'])), norm_res(model_markers(r['plain']))
+        corr.nontrivial.add(f'{tag}:' + hashlib.sha1(json.dumps([g.dump(), args], sort_keys=True).encode()).hexdigest())
+        small = len(json.dumps(g.dump())) < 3000
+        payload = {'files': g.dump() if small else {p: t for p, t in list(g.dump().items())[:3]}, 'args': args, 'main': 'm.c', 'features': sorted(g.feat)}
+        corr.count('outcome:' + (model.split('@')[0] if model.startswith('err') else 'ok'))
+        if impl != model:
+            corr.disagreements.append(dict(payload, kind=f'{tag}: model vs chibicc -E', model=model[:300], impl=impl[:300], stderr=ierr[-300:], gcc=gcc[:200]))
+        if plain.startswith('ok:') and model != plain:
+            # theorem C10_shortcuts_graph: whenever plain textual inclusion finishes, the shortcut machine finishes the same way
+            corr.disagreements.append(dict(payload, kind=f'{tag}: plain inclusion finishes, the guard shortcut changes the stream (model)', model=model[:300], plain=plain[:300]))
+        elif plain != model:
+            corr.count('plain-inclusion-refused-at-limit:shortcut-finishes' if plain.startswith('err:nested') and model.startswith('ok:') else 'plain-differs-in-error')
+        if not g.gcc_ok:
+            corr.count('gcc-skipped:pragma-once-two-spellings')
+        elif gcc.startswith('ok:') and impl != gcc:
+            corr.violations.append({'what': 'chibicc -E differs from gcc -E -P on an include graph with a cycle / deep nest / macro-named operand',
+                                    'input': g.dump() if small else payload['files'], 'args': args, 'expected': gcc[:400], 'got': impl[:400], 'stderr': ierr[-300:]})
+        elif gcc.startswith('err:nested') and impl.startswith('ok:'):
+            corr.count('gcc-refuses-at-limit:chibicc-shortcut-finishes')      # gcc tests the depth before its guard optimisation
+        elif gcc.startswith('err:nested') and impl != gcc:
+            corr.violations.append({'what': 'include nesting limit: chibicc -E stops elsewhere than gcc -E -P -fmax-include-depth=201 (outcome or file:line of the diagnostic)',
+                                    'input': g.dump() if small else payload['files'], 'args': args, 'expected': gcc, 'got': impl[:400], 'stderr': ierr[-300:]})
+        elif gcc == 'err' and impl.startswith('ok:'):
+            corr.count('gcc-rejects-chibicc-accepts')
+        if len([v for v in corr.violations if not v.get('known_id')]) >= 3 or len(corr.disagreements) >= 3:
+            return
+
+
+def cycle_cases(ctx, corr, n_random):
+    graphs = fixed_cycle_graphs(ctx)
+    # chains of exactly 199 / 200 / 201 nested files (+ a few neighbours), quoted and angle form
+    for n in (15, 199, 200, 201, 202):
+        graphs.append(chain_graph(ctx, n, ctx.rng.choice(['q', 'a'])))
+    graphs.append(chain_graph(ctx, 200, 'q', tail=[Ln('#include "nonexistent.h"', 'include q nonexistent.h')]))      # the nesting test comes before the file is opened
+    graphs.append(chain_graph(ctx, 199, 'q', tail=[Ln('#include "nonexistent.h"', 'include q nonexistent.h')]))
+    # a guarded header named again from the file at depth 200: the shortcut returns before the nesting test
+    gd = [Ln('#ifndef GD', 'ifndef GD 0'), Ln('#define GD', 'define GD -'), Ln('mk_gd', 't mk_gd'), Ln('#endif', 'endif 0')]
+    g = chain_graph(ctx, 200, 'q', tail=[Ln('#include "gd.h"', 'include q gd.h')])
+    g.files['gd.h'] = gd
+    g.files['m.c'] = [Ln('#include "gd.h"', 'include q gd.h')] + g.files['m.c']
+    g.feat.add('guarded-header-at-limit')
+    graphs.append(g)
+    g = chain_graph(ctx, 200, 'q', tail=[Ln('#include "po.h"', 'include q po.h')])
+    g.files['po.h'] = [Ln('#pragma once', 'once'), Ln('mk_po', 't mk_po')]
+    g.files['m.c'] = [Ln('#include "po.h"', 'include q po.h')] + g.files['m.c']
+    g.feat.add('once-header-at-limit')
+    graphs.append(g)
+    check_graphs_with_limit(ctx, corr, graphs, 'cycle')
+    if corr.disagreements or [v for v in corr.violations if not v.get('known_id')]:
+        return
+    check_graphs_with_limit(ctx, corr, [gen_cycle_graph(ctx, i) for i in range(n_random)], 'cyclegen')
 
 
 # ============================================================================ exhaustive short line sequences
@@ -1367,12 +1754,19 @@ def correspond(ctx, corr):
                  '(3) #if arithmetic battery (intmax_t/uintmax_t boundaries, unevaluated division by zero) + random defined expressions; '
                  '(4) include graphs over 2-4 directories + a controllable system directory (same header name in several directories, quoted/angle, '
                  '#include_next chains, guarded / almost-guarded / #pragma once shapes, re-inclusion after #undef of the guard, two path spellings) x '
-                 'orders of -I/-idirafter/-D/-U/-include: chibicc -E == model == model without the guard shortcut, and == gcc -E -P with the same options. '
+                 'orders of -I/-idirafter/-D/-U/-include, #include operands produced by (chains of) object-like macros in both forms: chibicc -E == model '
+                 '== model without the guard shortcut, and == gcc -E -P with the same options; (5) include cycles and deep nests: self-include '
+                 '(by name, by __FILE__), 2- and 3-cycles over quoted/angle/#include_next/macro-named operands, cycles ended by guards, #pragma once, '
+                 'counting conditionals or a false conditional, cycles in skipped groups, chains of exactly 15/199/200/201/202 nested files, a missing '
+                 'file / a guarded / a #pragma-once header named at depth 200: outcome (marker stream, or diagnostic class + file:line of "#include '
+                 'nested too deeply") of chibicc -E == model (total function IncludeDepth.includeRun, no step budget) and == gcc -E -P '
+                 '-fmax-include-depth=201; (6) character constants of every prefix and spelling in #if. '
                  'non-trivial = a nest with >= 3 opened conditionals beyond the probes, an arithmetic expression, or a graph with >= 4 files; '
                  'distinct = by source text + options.')
     run_corpus(ctx, corr)
     known_witness(ctx, corr)
     fixed_include_cases(ctx, corr)
+    cycle_cases(ctx, corr, 60 if not ctx.thorough else 1500)
     exhaustive_short(ctx, corr)
     arith_cases(ctx, corr)
     nv, nb, ng = (700, 200, 350) if not ctx.thorough else (12000, 3000, 6000)
@@ -1390,6 +1784,7 @@ def search(ctx, broken, corr):
     """a proof, the translator or the tie broke and the standard run saw no violation: look harder, gcc as the oracle"""
     c2 = Corr()
     for rnd in range(6):
+        cycle_cases(ctx, c2, 40)
         cond_cases(ctx, c2, 300, 60, 'search')
         include_cases(ctx, c2, 200)
         arith_cases(ctx, c2)
@@ -1435,7 +1830,11 @@ MANIFEST = {
                   'include search = documented order -I, system, -idirafter with the quoted form first looking beside the includer, the '
                   'filename cache never changes an answer, #include_next continues after the directory of the current file (C10_search*); '
                   'a file accepted by detect_include_guard, processed while its guard is defined, yields no tokens and no state change, '
-                  'and include_file with the guard table = plain textual inclusion for every include graph (C10_shortcuts*); -D/-U/-include '
+                  'and include_file with the guard table = plain textual inclusion for every include graph (C10_shortcuts*); the include process '
+                  'with include_file\'s nesting limit terminates for every include graph, cyclic or not: the spliced-stream machine transcribed from '
+                  'the C code needs a finite step budget and then computes a total budget-free function, and "#include nested too deeply" is reported '
+                  'only at the end of a chain of 200 nested includes (C10_include_terminates*); the operand forms of read_include_filename incl. '
+                  'macro-produced operands (C10_operand_forms, C10_search_directive); -D/-U/-include '
                   'are equivalent to #define/#undef lines in command-line order and files in front of the main file (C10_cmdline). '
                   '#if arithmetic: _partial (known finding C10-ppif-int-result-shift: comparison results are typed int). '
                   'Tied to the code on every run by a translator that pins the text of every transcribed arm and by differential '
